@@ -112,7 +112,7 @@ structure SFT where
   cachedSecs : Nat := 0            -- `_cached_seconds` (uint32_t)
 deriving DecidableEq, Repr
 
-inductive InitError | percentX | exclusive
+inductive InitError | percentX | exclusive | repeated
 deriving DecidableEq, Repr
 
 def rewrite (fmt : List Char) : List Char :=
@@ -206,8 +206,9 @@ def findFrac (k : Frac) (fmt : List Char) : Option (List Char × List Char) :=
   | none => none
 
 /-- the constructor: look for `%Qms`, `%Qus`, `%Qns` in this order, throw when a second kind is found,
-    split at the first occurrence of the kind found -/
-def TF.init (fmt : List Char) (localTime : Bool) : Except InitError TF :=
+    split at the first occurrence of the kind found; `rr` = the header also throws when the text after the split
+    still contains a fractional specifier (finding F21, repaired by a `fix:` commit; extracted on every run) -/
+def TF.init (rr : Bool) (fmt : List Char) (localTime : Bool) : Except InitError TF :=
   let ms := findFrac .ms fmt
   let us := findFrac .us fmt
   let ns := findFrac .ns fmt
@@ -226,7 +227,8 @@ def TF.init (fmt : List Char) (localTime : Bool) : Except InitError TF :=
       pure { spec := none, p1 := p1, p2 := none }
     | some (k, (a, b)) => do
       let p1 ← SFT.init a localTime
-      if b = [] then pure { spec := some k, p1 := p1, p2 := none }
+      if rr = true ∧ ((findFrac .ms b).isSome ∨ (findFrac .us b).isSome ∨ (findFrac .ns b).isSome) then .error .repeated
+      else if b = [] then pure { spec := some k, p1 := p1, p2 := none }
       else do
         let p2 ← SFT.init b localTime
         pure { spec := some k, p1 := p1, p2 := some p2 }
